@@ -485,7 +485,7 @@ class IterFlow:
                 rets.append(v)
                 # a strategy that is not itself a generator function hands back what it returns: that must be the result of a
                 # tracked strategy call, otherwise nothing is known about the nodes it will yield
-                if rec and f.srcname == "_iter" and not self._is_generator(f) and v != ("gen",):
+                if rec and f.srcname == "_iter" and not self._is_generator(f) and not (isinstance(v, tuple) and v and v[0] == "gen"):
                     self.problem("S2", f, n.ast, "the strategy returns `%s`, which is not the result of a tracked strategy / recursive "
                                  "call: the nodes it yields are produced by code this analysis does not follow" % norm(n.ast.value),
                                  undecided=True)
@@ -812,10 +812,16 @@ class IterFlow:
                 adm, _ = self.admitted_here(Seq(s.level, True, s.admitted), facts)
                 return Seq(s.level, st == ("fn", "stop"), adm)
             return TOPV
+        if name in ("tuple", "list") and len(args) == 1 and isinstance(args[0], Node) and args[0].level == ("c", 1) and not args[0].checked:
+            # the start value taken as a collection of start nodes (`list(node)` behind an exact-type test): all on level 1,
+            # none of them stop-checked yet.  (Whether `node` may be iterated at all is the identity lint's subject.)
+            return Seq(("c", 1), False, False)
         if name in ("tuple", "list", "reversed") and len(args) == 1:
             return args[0]
         if name == "next" and args and isinstance(args[0], tuple) and args[0][0] == "iterobj":
             return ("group",)
+        if name == "next" and args and isinstance(args[0], tuple) and args[0][0] == "gen" and len(args[0]) > 1 and args[0][1].endswith("GroupIter"):
+            return ("group",)  # an item of a group strategy run directly
         if name == "count" and (isinstance(fn, ast.Attribute) or isinstance(fn, ast.Name)):
             start = args[0] if args else kw.get("start", ("int", ("c", 0)))
             step = args[1] if len(args) > 1 else kw.get("step", ("int", ("c", 1)))
@@ -878,6 +884,8 @@ class IterFlow:
         if isinstance(callee, Func):
             if callee.srcname in ("_iter", "__next") or self.is_rec_strategy(callee):
                 self.call_site(f, e, callee, args, kw, facts, rec)
+                if callee.srcname == "_iter" and callee.cls is not None and callee.cls is not f.cls:
+                    return ("gen", callee.cls.name)  # another iterator's strategy run directly (ZigZag on LevelOrderGroup)
                 return ("gen",)
             if callee.srcname == "_get_grandchildren":
                 self.call_site(f, e, callee, args, kw, facts, rec)
